@@ -29,6 +29,8 @@ import (
 //	D<q><specs>[~<body>]  defmethod, q in p b a w, one spec char per required argument
 //	R<q><specs>           remove-method of (find-method ...)
 //	C<classes>            call with arguments of the given classes
+//	K<class>:<supers>     (dag family) defclass of class <class> with the direct superclasses in that order
+//	c<classes>            (dag family) call with the instances made when each class was first defined
 //
 // spec chars: 0..3 = chain level (0 root, 3 leaf), t = class t;
 // class chars: 0..3 = an object whose class is that chain level, x = an
@@ -42,6 +44,12 @@ type Case struct {
 	Ops   []string   `json:"ops,omitempty"`   // seq: the history; conc/park: unused
 	Sweep bool       `json:"sweep,omitempty"` // seq: after the history call every class tuple once more
 	InGF  bool       `json:"ingf,omitempty"`  // seq: Pre is given as :method options of the defgeneric form
+	// Retained (dag family): the final sweep also calls with the instances
+	// made before their classes were redefined
+	Retained bool `json:"retained,omitempty"`
+	// Bare (seq): every second method version writes its unspecialised
+	// required parameters as bare symbols, x instead of (x t)
+	Bare bool `json:"bare,omitempty"`
 	Thr   [][]string `json:"thr,omitempty"`   // conc: one op list per goroutine; park: [caller, definer]
 	PSeed uint64     `json:"pseed,omitempty"` // conc: seed of the schedule perturbation
 	// NoLin (conc): no logical clock and no linearizability check: the
@@ -54,10 +62,11 @@ type Case struct {
 // op encoding
 
 type op struct {
-	kind byte // D R C
-	qual string
-	spec []int // specializers or argument classes
-	body int
+	kind   byte // D R C, and in the dag family c (call with the retained first instances) and K (defclass)
+	qual   string
+	spec   []int // specializers or argument classes; K: the class
+	body   int
+	supers []int // K: direct superclasses in order
 }
 
 var qualOf = map[byte]string{'p': ref.Primary, 'b': ref.Before, 'a': ref.After, 'w': ref.Around}
@@ -74,7 +83,14 @@ func lvl(c byte) int {
 func parseOp(s string) op {
 	o := op{kind: s[0]}
 	rest := s[1:]
-	if o.kind != 'C' {
+	if o.kind == 'K' { // K<class>:<direct superclasses>
+		o.spec = []int{int(rest[0] - '0')}
+		for i := 2; i < len(rest); i++ {
+			o.supers = append(o.supers, int(rest[i]-'0'))
+		}
+		return o
+	}
+	if o.kind != 'C' && o.kind != 'c' {
 		o.qual = qualOf[rest[0]]
 		rest = rest[1:]
 	}
@@ -110,6 +126,10 @@ func defOp(qual string, spec []int, body int) string {
 
 func remOp(qual string, spec []int) string { return "R" + string(letterOf[qual]) + specStr(spec, 't') }
 func callOp(args []int) string             { return "C" + specStr(args, 'x') }
+func origCallOp(args []int) string         { return "c" + specStr(args, 'x') }
+func classOp(class int, supers []int) string {
+	return fmt.Sprintf("K%d:%s", class, specStr(supers, 'x'))
+}
 
 // ---------------------------------------------------------------------------
 // the world inside the worker: classes, trace function
@@ -237,21 +257,48 @@ func initWorld() {
 // ---------------------------------------------------------------------------
 // rendering of ops as slip source
 
+// specName names a specializer. In the dag family every generic function has
+// its own classes (they are redefined by the history): fam is "dag/<prefix>".
 func specName(fam string, s int) string {
 	if s == ref.T {
 		return "t"
 	}
+	if strings.HasPrefix(fam, "dag/") {
+		return fmt.Sprintf("%sk%d", fam[4:], s)
+	}
 	return clsName[fam][s]
 }
 
-var params = []string{"x", "y"}
+var params = []string{"x", "y", "z"}
 
-func lambdaList(fam string, spec []int) string {
+
+func hasT(spec []int) bool {
+	for _, s := range spec {
+		if s == ref.T {
+			return true
+		}
+	}
+	return false
+}
+
+// bareSlots remembers, per generic function and specializer tuple, whether the
+// first method defined for the tuple wrote an unspecialised parameter as a
+// bare symbol (only used to word a failure message).
+var bareSlots = map[string]bool{}
+
+// lambdaList renders the specialized lambda list; an unspecialized required
+// parameter is written as a bare symbol for every second method version
+// (bare) and as (x t) otherwise.
+func lambdaList(fam string, spec []int, bare bool) string {
 	var b strings.Builder
 	b.WriteByte('(')
 	for i, s := range spec {
 		if 0 < i {
 			b.WriteByte(' ')
+		}
+		if s == ref.T && bare {
+			b.WriteString(params[i])
+			continue
 		}
 		fmt.Fprintf(&b, "(%s %s)", params[i], specName(fam, s))
 	}
@@ -261,7 +308,7 @@ func lambdaList(fam string, spec []int) string {
 
 func defSrc(gf, fam string, m *ref.Method) string {
 	tag := ref.Tag(m.Qual, m.Spec, m.Ver)
-	ll := lambdaList(fam, m.Spec)
+	ll := lambdaList(fam, m.Spec, m.Bare)
 	args := strings.Join(params[:len(m.Spec)], " ")
 	switch m.Qual {
 	case ref.Primary:
@@ -372,16 +419,81 @@ type gfun struct {
 	ar    int
 	scope *slip.Scope
 	ver   int
+	// dag family: the first instance of each class (made right after the
+	// class was first defined; slip documents that existing objects keep
+	// referring to the original class when the class is redefined)
+	orig    map[int]slip.Object
+	defined []int // classes defined so far, in order of first definition
+}
+
+// defclass (re)defines class k of a dag-family generic function.
+func (g *gfun) defclass(k int, supers []int) *sl.Err {
+	names := make([]string, len(supers))
+	for i, s := range supers {
+		names[i] = specName(g.fam, s)
+	}
+	_, err := sl.Eval(g.scope, fmt.Sprintf("(defclass %s (%s) ())", specName(g.fam, k), strings.Join(names, " ")))
+	if err != nil {
+		return err
+	}
+	if _, has := g.orig[k]; !has {
+		obj, e := sl.Eval(g.scope, "(make-instance '"+specName(g.fam, k)+")")
+		if e != nil {
+			return e
+		}
+		g.orig[k] = obj
+		g.defined = append(g.defined, k)
+	}
+	return nil
+}
+
+// dagObj returns an argument object of class k: the retained first instance
+// or a new instance of the class as it is defined now.
+func (g *gfun) dagObj(k int, orig bool) (slip.Object, *sl.Err) {
+	if k == ref.Out {
+		return pool["clos"][4][0], nil
+	}
+	if orig {
+		if obj, has := g.orig[k]; has {
+			return obj, nil
+		}
+	}
+	return sl.Eval(g.scope, "(make-instance '"+specName(g.fam, k)+")")
+}
+
+// cplOf asks slip for the class precedence list of the object's class and
+// maps it to specializer values (classes of this generic function, t last).
+// The precedence list itself is C12's concern; this check takes it as given
+// and judges the dispatch against it.
+func (g *gfun) cplOf(obj slip.Object) ([]int, *sl.Err) {
+	g.scope.Let(slip.Symbol("c10o"), obj)
+	res, err := sl.Eval(g.scope, "(class-precedence (class-of c10o))")
+	if err != nil {
+		return nil, err
+	}
+	var cpl []int
+	prefix := g.fam[4:] + "k"
+	list, _ := res.(slip.List)
+	for _, e := range list {
+		if sym, ok := e.(slip.Symbol); ok && strings.HasPrefix(strings.ToLower(string(sym)), prefix) {
+			cpl = append(cpl, int(sym[len(prefix)]-'0'))
+		}
+	}
+	return append(cpl, ref.T), nil
 }
 
 // newGF defines a fresh generic function; methods are given as :method
 // options of the defgeneric form.
 func newGF(fam string, ar int, methods ...*ref.Method) (*gfun, *sl.Err) {
 	g := &gfun{name: fmt.Sprintf("c10g%d", gfCount.Add(1)), fam: fam, ar: ar, scope: world.NewScope()}
+	if fam == "dag" {
+		g.fam = "dag/" + g.name
+		g.orig = map[int]slip.Object{}
+	}
 	var b strings.Builder
 	fmt.Fprintf(&b, "(defgeneric %s (%s)", g.name, strings.Join(params[:ar], " "))
 	for _, m := range methods {
-		b.WriteString(" " + strings.Replace(defSrc(g.name, fam, m), "(defmethod "+g.name, "(:method", 1))
+		b.WriteString(" " + strings.Replace(defSrc(g.name, g.fam, m), "(defmethod "+g.name, "(:method", 1))
 	}
 	b.WriteString(")")
 	_, err := sl.Eval(g.scope, b.String())
@@ -396,14 +508,19 @@ type observed struct {
 
 // call makes the argument objects and calls the generic function in scope s.
 func (g *gfun) call(s *slip.Scope, classes []int, uniq int64) observed {
+	objs := make([]slip.Object, len(classes))
+	for i, c := range classes {
+		objs[i] = argObj(g.fam, c, uniq)
+	}
+	return g.callObjs(s, objs)
+}
+
+// callObjs calls the generic function with the given objects in scope s.
+func (g *gfun) callObjs(s *slip.Scope, objs []slip.Object) observed {
 	var src strings.Builder
 	src.WriteString("(" + g.name)
-	var first slip.Object
-	for i, c := range classes {
-		obj := argObj(g.fam, c, uniq)
-		if i == 0 {
-			first = obj
-		}
+	first := objs[0]
+	for i, obj := range objs {
 		s.Let(slip.Symbol(params[i]), obj)
 		src.WriteString(" " + params[i])
 	}
@@ -556,6 +673,18 @@ func classTuples(ar int) [][]int {
 		return out
 	}
 	var out [][]int
+	if ar == 3 {
+		// a sample: every tuple over the root, the leaf and the unrelated class
+		few := []int{0, 3, ref.Out}
+		for _, a := range few {
+			for _, b := range few {
+				for _, c := range few {
+					out = append(out, []int{a, b, c})
+				}
+			}
+		}
+		return append(out, []int{1, 2, 3}, []int{2, 1, 0}, []int{1, 1, 1}, []int{2, 2, 2})
+	}
 	for _, a := range cls {
 		for _, b := range cls {
 			out = append(out, []int{a, b})
@@ -588,9 +717,51 @@ func execSeq(x *fw.Ctx, c Case) {
 	nCalls, nMut, mutAfterCall := 0, 0, 0
 	calledSince := false
 	history := func(k int) string { return strings.Join(append(append([]string{}, c.Pre...), c.Ops[:k]...), " ") }
+	dag := c.Fam == "dag"
+	useOrig := false
+	// dag family: classes redefined since their first instance was made; a
+	// call with such an instance shares its cache key (the class name) with
+	// instances of the new class (listed finding), which can also spoil later
+	// calls until the cache is dropped
+	redefined := map[int]bool{}
+	stale, polluted := false, false
 	doCall := func(k int, classes []int, sweep bool) {
-		want := st.Dispatch(classes)
-		got := g.call(g.scope, classes, 0)
+		var want ref.Outcome
+		var got observed
+		if dag {
+			// the precedence lists are read from slip at the time of the call
+			objs := make([]slip.Object, len(classes))
+			cpls := make([][]int, len(classes))
+			for i, cl := range classes {
+				var e *sl.Err
+				if objs[i], e = g.dagObj(cl, useOrig); e == nil {
+					cpls[i], e = g.cplOf(objs[i])
+				}
+				if e != nil {
+					x.Fail("dag instance-error", "class %d after [%s]: %s", cl, history(k), e)
+					return
+				}
+			}
+			want = st.DispatchCPL(cpls)
+			got = g.callObjs(g.scope, objs)
+			stale = false
+			if useOrig {
+				x.Cover("call:retained-instance")
+				for _, cl := range classes {
+					stale = stale || redefined[cl]
+				}
+				if stale {
+					x.Cover("call:retained-instance-of-redefined-class")
+					defer func() { polluted = true }()
+				}
+			}
+			if len(log) < 12 {
+				log = append(log, fmt.Sprintf("precedence lists %v", cpls))
+			}
+		} else {
+			want = st.Dispatch(classes)
+			got = g.call(g.scope, classes, 0)
+		}
 		nCalls++
 		calledSince = true
 		x.Cover("calls")
@@ -614,7 +785,18 @@ func execSeq(x *fw.Ctx, c Case) {
 			if sweep {
 				where = "sweep-call"
 			}
-			x.Fail("call "+fail, "%s %s after [%s] (last change: %s; methods now: %s): %s",
+			sig := "call " + fail
+			if dag && strings.HasPrefix(lastMut, "K") {
+				sig = "call-after-defclass " + fail
+			}
+			if useOrig && stale {
+				where += " (instances made before their class was redefined)"
+				sig = "retained-instance-call " + fail
+			} else if polluted {
+				where += " (after a call with an instance made before its class was redefined, no change of the table since)"
+				sig = "call-after-retained-instance-call " + fail
+			}
+			x.Fail(sig, "%s %s after [%s] (last change: %s; methods now: %s): %s",
 				where, callOp(classes), history(k), lastMut, st, msg)
 		}
 	}
@@ -623,14 +805,28 @@ func execSeq(x *fw.Ctx, c Case) {
 		switch o.kind {
 		case 'D':
 			g.ver++
-			m := &ref.Method{Qual: o.qual, Spec: o.spec, Ver: g.ver, Body: o.body}
+			m := &ref.Method{Qual: o.qual, Spec: o.spec, Ver: g.ver, Body: o.body, Bare: c.Bare && g.ver%2 == 0 && hasT(o.spec)}
 			replaced := st.Has(o.qual, o.spec)
 			src := defSrc(g.name, g.fam, m)
 			if _, err := sl.Eval(g.scope, src); err != nil {
 				x.Fail("defmethod-error qual="+o.qual, "%s failed after [%s]: %s", src, history(k), err)
 				return false
 			}
+			if m.Bare {
+				x.Cover("defmethod:unspecialised-parameter-as-symbol")
+			}
+			// slip keeps the lambda list of the first method defined for a
+			// specializer tuple as long as any method for the tuple exists
+			slot := g.name + "/" + specStr(o.spec, 't')
+			anyForSlot := false
+			for _, q := range allQuals {
+				anyForSlot = anyForSlot || st.Has(q, o.spec)
+			}
+			if !anyForSlot {
+				bareSlots[slot] = m.Bare
+			}
 			st.Define(m)
+			polluted = false
 			lastMut = s
 			if replaced {
 				lastMut += " (replacement)"
@@ -644,6 +840,7 @@ func execSeq(x *fw.Ctx, c Case) {
 				x.Fail("remove-method-error qual="+o.qual, "%s failed after [%s]: %s", src, history(k), err)
 				return false
 			}
+			wasBare := bareSlots[g.name+"/"+specStr(o.spec, 't')]
 			had := st.Remove(o.qual, o.spec)
 			if (sl.Show(res) == "1") != had {
 				x.Fail("find-method present="+fmt.Sprint(had), "after [%s] find-method %s %v says present=%s, the method table says %v",
@@ -651,13 +848,44 @@ func execSeq(x *fw.Ctx, c Case) {
 			}
 			if had {
 				lastMut = s
+				polluted = false
 				x.Cover("remove-method:" + o.qual)
+				// the method must be gone; if it is not, every later call would
+				// disagree for that one reason, so the case ends here
+				if again, e := sl.Eval(g.scope, src); e == nil && sl.Show(again) == "1" {
+					x.Fail("remove-method no-effect",
+						"after [%s] %s: find-method still finds the method after remove-method returned (the first method defined for these specializers wrote an unspecialised parameter as a bare symbol: %v)",
+						history(k), s, wasBare)
+					return false
+				}
 			} else {
 				x.Cover("remove-method:absent")
 			}
 		case 'C':
 			doCall(k, o.spec, false)
 			return true
+		case 'c':
+			useOrig = true
+			doCall(k, o.spec, false)
+			useOrig = false
+			return true
+		case 'K':
+			_, redef := g.orig[o.spec[0]]
+			if err := g.defclass(o.spec[0], o.supers); err != nil {
+				x.Fail("defclass-error", "%s failed after [%s]: %s", s, history(k), err)
+				return false
+			}
+			polluted = false
+			if redef {
+				redefined[o.spec[0]] = true
+				x.Cover("defclass:redefine")
+				lastMut = s
+			} else {
+				x.Cover("defclass:new")
+				if 0 < nCalls {
+					lastMut = s
+				}
+			}
 		}
 		if !pre {
 			nMut++
@@ -686,7 +914,30 @@ func execSeq(x *fw.Ctx, c Case) {
 			return
 		}
 	}
-	if c.Sweep {
+	if c.Sweep && dag {
+		// every defined class, new instances then the retained ones
+		cls := append(append([]int{}, g.defined...), ref.Out)
+		for _, orig := range []bool{false, true} {
+			if orig && !c.Retained {
+				break
+			}
+			useOrig = orig
+			for _, a := range cls {
+				if c.Ar == 1 {
+					doCall(len(c.Ops), []int{a}, true)
+					continue
+				}
+				for _, b := range cls {
+					t := []int{a, b}
+					if c.Ar == 3 {
+						t = append(t, cls[(a+b)%len(cls)])
+					}
+					doCall(len(c.Ops), t, true)
+				}
+			}
+		}
+		useOrig = false
+	} else if c.Sweep {
 		for _, t := range classTuples(c.Ar) {
 			doCall(len(c.Ops), t, true)
 		}
@@ -895,30 +1146,32 @@ func sortMethods(ms []*ref.Method) {
 	}
 }
 
-type sizes struct{ exh, probes, short, long, conc, park int }
+type sizes struct{ exh, probes, short, long, conc, park, dag, cdag int }
 
 func tierSizes(tier string) sizes {
 	s := sizes{exh: len(blocks) * perBlock(tier), probes: len(probes)}
 	if tier == "thorough" {
-		s.short, s.long, s.conc, s.park = 200000, 2000, 3000, len(parkCases)
+		s.short, s.long, s.conc, s.park, s.dag, s.cdag = 200000, 2000, 3000, len(parkCases), 40000, 1500
 	} else {
-		s.short, s.long, s.conc, s.park = 12000, 150, 300, len(parkCases)
+		s.short, s.long, s.conc, s.park, s.dag, s.cdag = 12000, 150, 300, len(parkCases), 2500, 150
 	}
 	// development knob (never set by registered commands): C10_ONLY=conc
 	// keeps only the probes, the directed interleavings and the concurrent
 	// histories; C10_ONLY=seq drops the concurrent and the exhaustive blocks.
 	switch os.Getenv("C10_ONLY") {
 	case "conc":
-		s.short, s.long, s.exh = 0, 0, 0
+		s.short, s.long, s.exh, s.dag = 0, 0, 0, 0
 	case "seq": // probes, directed interleavings and random histories only
-		s.conc, s.exh = 0, 0
+		s.conc, s.exh, s.cdag = 0, 0, 0
+	case "dag": // probes and class redefinition histories only
+		s.conc, s.exh, s.short, s.long, s.park = 0, 0, 0, 0, 0
 	}
 	return s
 }
 
 func nCases(tier string) int {
 	s := tierSizes(tier)
-	return s.probes + s.park + s.conc + s.long + s.short + s.exh
+	return s.probes + s.park + s.conc + s.cdag + s.dag + s.long + s.short + s.exh
 }
 
 // probes: deterministic, seed-independent cases for boundary situations: the
@@ -943,6 +1196,34 @@ var probes = []Case{
 		Ops: []string{"Dp00", "Dp12", "Dp21", "Db11", "Db22", "Da1t", "Dat2", "C33", "C12", "C21", "C11", "C22", "C30"}},
 	{Kind: "seq", Fam: "clos", Ar: 2, Note: "probe-defgeneric-options", Sweep: true, InGF: true, Pre: []string{"Dp00", "Db10", "Da01", "Dp00"},
 		Ops: []string{"C33", "C00", "Dp11", "C33", "Rb10", "C33", "Rp00", "C10"}},
+	// class redefinition after the cache was warmed on several classes that
+	// inherit from the redefined class: superclass removed / added / reordered,
+	// new class defined; afterwards every class is called, in both orders
+	{Kind: "seq", Fam: "dag", Ar: 1, Note: "probe-class-redefinition", Sweep: true,
+		Ops: []string{"K0:", "K1:0", "K2:1", "K3:1", "Dp0", "Dp1", "Db0", "Da0", "C2", "C3", "C1", "C0", "K1:", "C2", "C3", "C1", "C0", "c2", "c3", "K1:0", "C3", "C2", "C1", "C0"}},
+	{Kind: "seq", Fam: "dag", Ar: 1, Note: "probe-class-redefinition", Sweep: true,
+		Ops: []string{"K0:", "K1:0", "K2:1", "K3:1", "Dp0", "Dp1", "Db0", "Da0", "C3", "C2", "C1", "K1:", "C0", "C1", "C3", "C2", "K1:0", "C0", "C1", "C2", "C3"}},
+	{Kind: "seq", Fam: "dag", Ar: 1, Note: "probe-class-redefinition", Sweep: true,
+		Ops: []string{"K0:", "K1:0", "K2:0", "K3:12", "K4:3", "Dp1", "Dp2", "Db1", "Db2", "Da1", "Da2", "Dw1", "Dw2", "C4", "C3", "C2", "K3:21", "C4", "C3", "C2", "C1", "K3:12", "C3", "C4"}},
+	{Kind: "seq", Fam: "dag", Ar: 1, Note: "probe-class-redefinition", Sweep: true,
+		Ops: []string{"K0:", "K1:", "K2:0", "K3:2", "Dp0", "Dp1", "Db1", "C3", "C2", "K2:01", "C3", "C2", "C1", "K4:3", "C4", "C3", "K2:1", "C4", "C3", "C2", "K2:", "C2", "C3", "C4"}},
+	{Kind: "seq", Fam: "dag", Ar: 2, Note: "probe-class-redefinition", Sweep: true,
+		Ops: []string{"K0:", "K1:0", "K2:1", "K3:1", "Dp00", "Dp10", "Dp01", "Db0t", "Dat1", "C23", "C32", "C22", "C11", "K1:", "C32", "C23", "C22", "C33", "C11", "K1:0", "C33", "C23"}},
+	// instances that outlive a redefinition of their class keep the original
+	// class; they share the cache key (the class name) with new instances
+	{Kind: "seq", Fam: "dag", Ar: 1, Note: "probe-retained-instances", Retained: true,
+		Ops: []string{"K0:", "K1:0", "Dp1", "Db0", "C1", "c1", "K1:", "C1", "c1", "C1", "Da0", "c1", "C1", "c1"}},
+	{Kind: "seq", Fam: "dag", Ar: 2, Note: "probe-retained-instances", Retained: true, Sweep: true,
+		Ops: []string{"K0:", "K1:0", "K2:1", "Dp00", "Dp11", "Db0t", "C21", "c21", "K1:", "C21", "c21", "c12", "C12", "K2:0", "c22", "C22", "C21"}},
+	// methods whose unspecialised required parameter is a bare symbol: define, call, replace, remove
+	{Kind: "seq", Fam: "clos", Ar: 1, Note: "probe-unspecialised-parameters", Bare: true, Sweep: true,
+		Ops: []string{"Dp0", "Dpt", "C3", "Cx", "Dp1", "Dbt", "C3", "Cx", "Dpt", "Cx", "Rbt", "C1", "Rpt", "Cx", "C3"}},
+	{Kind: "seq", Fam: "clos", Ar: 2, Note: "probe-unspecialised-parameters", Bare: true, Sweep: true,
+		Ops: []string{"Dp00", "Dpt1", "C31", "Cx1", "Db2t", "Datt", "C23", "Cxx", "Dpt1", "Ratt", "C23", "Rb2t", "Rpt1", "C31"}},
+	{Kind: "seq", Fam: "clos", Ar: 3, Note: "probe-unspecialised-parameters", Bare: true,
+		Ops: []string{"Dp0tt", "Dpttt", "C000", "Cxxx", "Dpt1t", "Dbtt2", "C312", "Rpttt", "Cxxx", "Rbtt2", "C312"}},
+	{Kind: "seq", Fam: "clos", Ar: 3, Note: "probe-three-arguments", Sweep: true,
+		Ops: []string{"Dpttt", "C000", "Cx3x", "Dp0tt", "Dpt1t", "Dptt2", "C333", "C0x3", "Cx13", "Db1t1", "Datt0", "Dwt2t", "C333", "C123", "C210", "Rpttt", "C333", "Cxxx", "C0xx"}},
 	{Kind: "seq", Fam: "clos", Ar: 1, Note: "probe-stacked-arounds",
 		Ops: []string{"Dp0", "Dw0", "Dw1", "C3", "Dw2", "C3", "Dw3", "C3", "C1", "Rw1", "C3", "Dw0~1", "C3", "Dw2~2", "C3"}},
 	{Kind: "seq", Fam: "clos", Ar: 2, Note: "probe-stacked-arounds",
@@ -986,8 +1267,145 @@ func init() {
 	cp(1, nil, rep(3, "Dpt", "Dp1", "Rp1", "Rpt"), rep(6, "C3"), rep(6, "C1"), rep(6, "Cx"), rep(6, "C0"))
 	cp(1, []string{"Dpt"}, rep(3, "Dbt", "Rbt", "Dp2", "Rp2"), rep(6, "C3"), rep(6, "C1"), rep(6, "Cx"))
 	cp(2, []string{"Dptt"}, rep(3, "Dp1t", "Rp1t", "Rptt", "Dptt"), rep(5, "C33"), rep(5, "C0x"), rep(5, "C13"))
+	// class definitions while calls are in flight (fixed shapes): a superclass
+	// removed and added again, new classes only, two superclasses reordered
+	cd := func(ar int, pre []string, thr ...[]string) {
+		for k := 0; k < 6; k++ {
+			probes = append(probes, Case{Kind: "cdag", Fam: "dag", Ar: ar, Note: "cdag-probe", Pre: pre, Thr: thr, PSeed: uint64(3000 + k)})
+		}
+	}
+	cd(1, []string{"K0:", "K1:0", "K2:1", "K3:1", "Dp0", "Dp1", "Db0", "Da0"}, rep(3, "K1:", "K1:0"), rep(6, "C2"), rep(6, "C3"), rep(6, "C2"))
+	cd(1, []string{"K0:", "K1:0", "K2:1", "K3:1", "Dp0", "Dp1", "Db0", "Da0"}, []string{"K4:1", "K5:4", "K6:", "K7:65"}, rep(6, "C2"), rep(6, "C3"), rep(6, "C1"))
+	cd(1, []string{"K0:", "K1:0", "K2:0", "K3:12", "K4:3", "Dp1", "Dp2", "Db1", "Db2", "Da1", "Da2"}, rep(3, "K3:21", "K3:12"), rep(6, "C4"), rep(6, "C1"), rep(6, "C4"))
+	cd(2, []string{"K0:", "K1:0", "K2:1", "Dp00", "Dp10", "Db01", "Dat1"}, rep(3, "K1:", "K1:0"), rep(5, "C22"), rep(5, "C20"), rep(5, "C02"))
 	// two definers, two arguments
 	cp(2, []string{"Dp00", "Db10"}, rep(3, "Da00", "Ra00", "Db00"), rep(3, "Rb10", "Db10", "Dp10"), rep(5, "C33"), rep(5, "C13"), rep(5, "C31"))
+}
+
+// randSupers picks 0..2 direct superclasses among the classes below k.
+func randSupers(r *rand.Rand, k int) []int {
+	if k == 0 {
+		return nil
+	}
+	n := []int{0, 1, 1, 1, 2, 2}[r.IntN(6)]
+	if k < n {
+		n = k
+	}
+	var sup []int
+	for len(sup) < n {
+		c := r.IntN(k)
+		dup := false
+		for _, e := range sup {
+			dup = dup || e == c
+		}
+		if !dup {
+			sup = append(sup, c)
+		}
+	}
+	return sup
+}
+
+// genDag: a history over a generic function whose argument classes form a
+// DAG that the history itself redefines: after the cache has been warmed by
+// calls on several classes a class gets another superclass list (superclass
+// added, removed, reordered) or a new class is defined, then the classes are
+// called again in random order. The oracle takes the precedence lists slip
+// reports at the time of each call.
+func genDag(r *rand.Rand) Case {
+	ar := []int{1, 1, 1, 1, 1, 2, 2, 2, 2, 3}[r.IntN(10)]
+	c := Case{Kind: "seq", Fam: "dag", Ar: ar, Note: "dag", Sweep: ar < 3 || r.IntN(3) == 0, Retained: r.IntN(4) == 0, Bare: r.IntN(4) == 0}
+	nCls := 3 + r.IntN(3)
+	supers := map[int][]int{}
+	for k := 0; k < nCls; k++ {
+		supers[k] = randSupers(r, k)
+		if k == 1 || (1 < k && len(supers[k]) == 0 && r.IntN(3) != 0) {
+			supers[k] = []int{r.IntN(k)}
+		}
+		c.Ops = append(c.Ops, classOp(k, supers[k]))
+	}
+	spec := func() []int {
+		s := make([]int, ar)
+		for i := range s {
+			if r.IntN(5) == 0 || (2 < ar && r.IntN(2) == 0) {
+				s[i] = ref.T
+			} else {
+				s[i] = r.IntN(nCls)
+			}
+		}
+		return s
+	}
+	args := func() []int {
+		a := make([]int, ar)
+		for i := range a {
+			if r.IntN(12) == 0 {
+				a[i] = ref.Out
+			} else {
+				a[i] = r.IntN(nCls)
+			}
+		}
+		return a
+	}
+	st := ref.New()
+	for k := 2 + r.IntN(4); 0 < k; k-- {
+		q := allQuals[r.IntN(4)]
+		if k%2 == 0 {
+			q = ref.Primary
+		}
+		sp := spec()
+		st.Define(&ref.Method{Qual: q, Spec: sp})
+		c.Ops = append(c.Ops, defOp(q, sp, 0))
+	}
+	n := 8 + r.IntN(18)
+	for len(c.Ops) < nCls+n {
+		switch k := r.IntN(20); {
+		case k < 10:
+			c.Ops = append(c.Ops, callOp(args()))
+		case k < 12:
+			if c.Retained {
+				c.Ops = append(c.Ops, origCallOp(args()))
+			} else {
+				c.Ops = append(c.Ops, callOp(args()))
+			}
+		case k < 14:
+			q := allQuals[r.IntN(4)]
+			sp := spec()
+			st.Define(&ref.Method{Qual: q, Spec: sp})
+			c.Ops = append(c.Ops, defOp(q, sp, []int{0, 0, 2, 5}[r.IntN(4)]))
+		case k < 15:
+			var ms []*ref.Method
+			for _, m := range st.M {
+				ms = append(ms, m)
+			}
+			if 0 < len(ms) {
+				sortMethods(ms)
+				m := ms[r.IntN(len(ms))]
+				st.Remove(m.Qual, m.Spec)
+				c.Ops = append(c.Ops, remOp(m.Qual, m.Spec))
+			}
+		case k < 19:
+			// warm the cache on a few classes, redefine one, call again
+			for w := 2 + r.IntN(3); 0 < w; w-- {
+				c.Ops = append(c.Ops, callOp(args()))
+			}
+			cl := r.IntN(nCls)
+			sup := randSupers(r, cl)
+			if old := supers[cl]; len(old) == 2 && r.IntN(3) == 0 {
+				sup = []int{old[1], old[0]} // reorder
+			}
+			supers[cl] = sup
+			c.Ops = append(c.Ops, classOp(cl, sup))
+			for w := 2 + r.IntN(3); 0 < w; w-- {
+				c.Ops = append(c.Ops, callOp(args()))
+			}
+		default:
+			if nCls < 7 {
+				supers[nCls] = randSupers(r, nCls)
+				c.Ops = append(c.Ops, classOp(nCls, supers[nCls]))
+				nCls++
+			}
+		}
+	}
+	return c
 }
 
 func gen(r *rand.Rand, i int, tier string) Case {
@@ -1004,8 +1422,19 @@ func gen(r *rand.Rand, i int, tier string) Case {
 		return genConc(r, i, tier)
 	}
 	i -= s.conc
+	if i < s.cdag {
+		return genCDag(r)
+	}
+	i -= s.cdag
+	if i < s.dag {
+		return genDag(r)
+	}
+	i -= s.dag
 	fam := []string{"clos", "clos", "clos", "clos", "dia", "dia", "num"}[r.IntN(7)]
 	ar := 1 + r.IntN(2)
+	if r.IntN(8) == 0 {
+		ar = 3 // three required arguments, often only some of them specialised
+	}
 	// one history in four starts from methods given as :method options of defgeneric
 	var pre []string
 	if r.IntN(4) == 0 {
@@ -1014,11 +1443,11 @@ func gen(r *rand.Rand, i int, tier string) Case {
 		}
 	}
 	if i < s.long {
-		return Case{Kind: "seq", Fam: fam, Ar: ar, Note: "long", Pre: pre, InGF: pre != nil, Ops: genHistory(r, fam, ar, 200, pre), Sweep: true}
+		return Case{Kind: "seq", Fam: fam, Ar: ar, Note: "long", Pre: pre, InGF: pre != nil, Ops: genHistory(r, fam, ar, 200, pre), Sweep: true, Bare: pre == nil && r.IntN(4) == 0}
 	}
 	i -= s.long
 	if i < s.short {
-		return Case{Kind: "seq", Fam: fam, Ar: ar, Note: "len7", Pre: pre, InGF: pre != nil, Ops: genHistory(r, fam, ar, 3+r.IntN(5), pre), Sweep: r.IntN(2) == 0}
+		return Case{Kind: "seq", Fam: fam, Ar: ar, Note: "len7", Pre: pre, InGF: pre != nil, Ops: genHistory(r, fam, ar, 3+r.IntN(5), pre), Sweep: r.IntN(2) == 0, Bare: pre == nil && r.IntN(4) == 0}
 	}
 	i -= s.short
 	return genExh(i, tier)
@@ -1033,6 +1462,8 @@ func exec(x *fw.Ctx, c Case) {
 		execConc(x, c)
 	case "park":
 		execPark(x, c)
+	case "cdag":
+		execCDag(x, c)
 	default:
 		x.Fail("harness-bad-case", "unknown kind %q", c.Kind)
 	}
